@@ -16,8 +16,8 @@ CLAIMS = {
         design="§4 C03; §8",
     ),
     "C08": dict(
-        text='Proofs: percentile_value equals the linear-interpolation definition for every sorted non-empty list and 0<=p<=100, within [min,max], p100=max, p0=min, p50=median, never out of range, lemma non-decreasing in p; GlobalStats.metrics returns the FIRST record filed under the task name (records with a task name are never found through their operation name; loop invariant). Call-site obligations (syntactic): every store query behind the per-task result metrics passes sample_type=SampleType.Normal. BOUNDED stand-in: the real GlobalStatsCalculator on 40 generated in-memory stores (normal samples only, p50=median within [min,max], percentile set by NORMAL sample count, error rate), metrics lookup table, race.json round trip incl. zero-valued metrics.',
-        note='Exact-real arithmetic for floats. Store filters / get_stats / result assembly / persistence are bounded or call-site only, not proved.',
+        text='Proofs: percentile_value equals the linear-interpolation definition for every sorted non-empty list and 0<=p<=100, within [min,max], p100=max, p0=min, p50=median, never out of range, lemma non-decreasing in p; GlobalStats.metrics returns the FIRST record filed under the task name (records with a task name are never found through their operation name; loop invariant). percentiles_for_sample_size: total function of the count only, raises below 1, strictly ascending in (0,100], ends with 100, 50 first from two samples on, one more 9 per decade (exact ladder). InMemoryMetricsStore.get_percentiles: queries the store with exactly the caller-given name/task/operation-type/SAMPLE-TYPE filters, sorts those values, and reports every requested percentile under its own key with the interpolation value over the sorted values (loop invariant; percentile_value used by contract); get_stats: None iff no values, count = number of values, min/max attained and bounding every value. Call-site obligations (syntactic): every store query behind the per-task result metrics passes sample_type=SampleType.Normal. BOUNDED stand-in: the real GlobalStatsCalculator on 40 generated in-memory stores (normal samples only, p50=median within [min,max], percentile set by NORMAL sample count, error rate), metrics lookup table, race.json round trip incl. zero-valued metrics.',
+        note='Exact-real arithmetic for floats; sorted() is an assumed external (same length, ascending, rearrangement); statistics.mean / sum uninterpreted. Store filters (_get), error rate, result assembly (GlobalStatsCalculator.__call__, summary_stats, single_latency) and persistence are bounded or call-site only, not proved.',
         design="§4 C08; §8",
     ),
     "C20": dict(
@@ -37,7 +37,7 @@ CLAIMS["C16"] = dict(
     design="§4 C16",
 )
 CLAIMS["C17"] = dict(
-    text="Proof over all delegate outcome sequences that EsClient.guarded makes <= 11 attempts, pauses in [2^k,2^k+1) after the k-th failure (strictly growing), retries exactly timeouts, connection errors, HTTP 429/502/503/504 and bulk errors whose every item is retryable, returns the first success without repeating the call, and maps auth errors to SystemSetupError and everything else / exhaustion to RallyError; __init__ establishes the status list; 13 call-site obligations: every store operation routes through guarded exactly once with no library-side retry option.",
+    text="Proof over all delegate outcome sequences that EsClient.guarded makes <= 11 attempts, pauses in [2^k,2^k+1) after the k-th failure (strictly growing), retries exactly timeouts, connection errors, HTTP 429/502/503/504 and bulk errors whose every item is retryable, returns the first success without repeating the call, and maps auth errors to SystemSetupError and everything else / exhaustion to RallyError; __init__ establishes the status list; 13 call-site obligations: every store operation routes through guarded exactly once with no library-side retry option, and the delegate it hands over is an eager call of the raw client (or the eager bulk helper), never a generator function whose requests would be sent outside the retry loop.",
     note="Delegate outcomes are an assumed enumeration; random.random in [0,1); message texts not decided.",
     design="§4 C17",
 )
@@ -62,7 +62,7 @@ CLAIMS["C18"] = dict(
     design="§4 C18",
 )
 CLAIMS["C13"] = dict(
-    text="Proofs over maps as (domain, value) arrays: ElasticsearchInstaller.variables and DockerProvisioner.__init__ give Rally's own node variables whatever the composed car defines and pass every other car variable through unchanged (forall keys); CarLoader.load_car lets command-line car parameters override the car's [variables] section and takes everything else from it; provisioner.cleanup removes nothing under preserve-install and otherwise only the installation directory and the data paths, each at most once (ghost trace of rmtree events, loop invariant). BareProvisioner._provisioner_variables: what templates and hooks see are Rally's node variables unless a PLUGIN defines the key (the car's variables never re-override them); cleanup examines EVERY data path exactly once and then the installation directory (ghost counter) and removes whatever exists.",
+    text="Proofs over maps as (domain, value) arrays: ElasticsearchInstaller.variables and DockerProvisioner.__init__ give Rally's own node variables whatever the composed car defines and pass every other car variable through unchanged (forall keys); CarLoader.load_car lets command-line car parameters override the car's [variables] section and takes everything else from it; provisioner.cleanup removes nothing under preserve-install and otherwise only the installation directory and the data paths, each at most once (ghost trace of rmtree events, loop invariant). plain_text: a config file is treated as a template exactly if its WHOLE extension is one of the seven documented ones (everything else is copied verbatim). BareProvisioner._provisioner_variables: what templates and hooks see are Rally's node variables unless a PLUGIN defines the key (the car's variables never re-override them); cleanup examines EVERY data path exactly once and then the installation directory (ghost counter) and removes whatever exists.",
     note="configparser section copying, os.path, str() and str.join are assumed/uninterpreted; team.load_car's car-order loop and _apply_config template mirroring are not under contract (not_decided).",
     design="§4 C13",
 )
@@ -87,7 +87,7 @@ CLAIMS["C01"] = dict(
     design="§4 C01",
 )
 CLAIMS["C07"] = dict(
-    text="Proofs of the function-level exactly-once links: Worker.send_samples (queue drained once, everything drained shipped in ONE UpdateSamples), Worker.drive (the sampler is only replaced or dropped after it was drained and the finished executor joined), Driver.update_samples (shipment appended as a whole, order kept), Driver.post_process_samples (the processor gets exactly the gathered list, new samples go to a fresh empty list), move_to_next_task (metrics externalised with clear exactly once per step and handed to race control). SamplePostprocessor.__call__: exactly one latency and one processing-time record per down-sampled sample (ghost counters, (i+f-1)//f lemma), every record of a sample carries the meta-data merged FOR THAT sample (own request meta-data and client id) and its own values, the batch is flushed without refresh; Driver.joinpoint_reached post-processes the finished step's samples FIRST at every last join point, also the final one.",
+    text="Proofs of the function-level exactly-once links: Sampler.samples (the drain returns the WHOLE queue content in order and leaves the queue empty: ghost queue, loop invariant over items taken), Worker.send_samples (queue drained once, everything drained shipped in ONE UpdateSamples), Worker.drive (the sampler is only replaced or dropped after it was drained and the finished executor joined), Driver.update_samples (shipment appended as a whole, order kept), Driver.post_process_samples (the processor gets exactly the gathered list, new samples go to a fresh empty list), move_to_next_task (metrics externalised with clear exactly once per step and handed to race control). SamplePostprocessor.__call__: exactly one latency and one processing-time record per down-sampled sample (ghost counters, (i+f-1)//f lemma), every record of a sample carries the meta-data merged FOR THAT sample (own request meta-data and client id) and its own values, the batch is flushed without refresh; Driver.joinpoint_reached post-processes the finished step's samples FIRST at every last join point, also the final one.",
     note="NOT decided: interleavings of ticks/shipments/hand-overs; MetricsStore._put_metric / to_externalizable / bulk_add internals. One genuine defect (sampler replaced un-drained at a task-to-task transition) was found and repaired by a fix: commit.",
     design="§4 C07",
 )
